@@ -823,9 +823,22 @@ class C01(UnitChanSpec):
             pool = get_pool(cfg)
         except W.WorkloadError:
             return {"cfg": cfg, "units": []}
-        return {"cfg": cfg, "units": gen_history(rng, pool)}
+        units = gen_history(rng, pool)
+        if idx % 3000 == 11 and units:
+            # "long history" arm: hundreds to thousands of tiny padding /
+            # auxiliary units inside the sequence (counts and offsets far beyond
+            # what 14-unit histories reach)
+            at = 1 + rng.randrange(len(units))
+            n = rng.choice([300, 1000, 5000])
+            filler = [{"t": rng.choice(["X", "A"]), "n": rng.choice([0, 0, 1, 2]), "fill": (i * 7) & 0xFF} for i in range(n)]
+            units[at:at] = filler
+        return {"cfg": cfg, "units": units}
 
     def shrink(self, case):
+        if len(case["units"]) > 200:
+            # long histories: drop the bulk first
+            small = [u for u in case["units"] if u["t"] not in ("X", "A")]
+            yield dict(case, units=small)
         for us in shrink_list(case["units"]):
             yield dict(case, units=us)
         for k, u in enumerate(case["units"]):
@@ -1034,6 +1047,12 @@ class C10(UnitChanSpec):
                 if us and us[0].get("t") == "H" and us[0].get("lvl") not in (64, 65, 66):
                     us.insert(1, {"t": "X", "n": rng.choice([1048576 + 100, 1100000, 600000, 70000]), "fill": rng.randrange(256)})
             del seqs[3:]
+        if idx % 4000 == 13 and seqs:
+            # "many sequences" arm: the (conformant) sequences of this list
+            # repeated until the stream holds 60 or 300 of them
+            good = [sq for k, sq in enumerate(seqs) if k != bad_at] or seqs
+            n = rng.choice([60, 300])
+            seqs = [dict(good[i % len(good)]) for i in range(n)]
         return {"seqs": seqs}
 
     def shrink(self, case):
